@@ -1,3 +1,329 @@
+(* C18 — signals and slices alias state, isolate accumulations and reset cleanly.
+   Statements only (every proof is `exact <lemma>`), Print Assumptions under each, non-vacuity examples at the end.
+   Model: Model/Signal.v (heap of buffers, values are windows onto buffers; Signal = root record, SignalSlice =
+   (root, path of index objects); numpy's index semantics enters through the tables `slc`, supplied and validated by
+   the harness).  Vocabulary (Proofs/SignalP.v):
+     root w i                 the record of Signal i            get_fld r_st / r_se   the .state / .sensitivity getters
+     resolve ix shp p         positions+shape selected by a path p of nested VIEW (basic) slices, innermost last
+     win_ok h r ix            ix are distinct valid positions of buffer r
+     fits h x shp n tcx       x is a scalar or an array of exactly shape shp (n entries), complex only onto complex
+     vdata h x n              the data of x (a scalar is repeated n times)
+     wrote h h' r tix d       in h', entries tix of buffer r hold d; all other entries of r, its size and dtype, and
+                              every other buffer that existed in h are unchanged
+     same_old h h'            h' only has additional buffers
+     Inv / protocol / targets / sens_abs   the no-alias invariant, see below *)
 From Coq Require Import ZArith List Bool.
 From Pymoto Require Import Base.Cmp Model.Signal Proofs.SignalP.
 Import ListNotations.
+Local Open Scope nat_scope.
+
+(* ------------------------------------------------------------------ 1. a slice READS the corresponding entries *)
+(* through nested basic slices the getter returns a view: a window on the SAME buffer at exactly the selected
+   positions; the world is untouched (f = r_st: state, f = r_se: sensitivity) *)
+Theorem C18_slice_reads_view : forall (f : rootsig -> val) i p w r ix shp jx shp1,
+  f (root w i) = VWin r ix shp -> resolve ix shp p = Some (jx, shp1) ->
+  get_fld f i p w = (w, Ok (VWin r jx shp1)).
+Proof. exact get_fld_view. Qed.
+Print Assumptions C18_slice_reads_view.
+
+(* a final integer-array index returns a fresh array (no sharing) holding those entries *)
+Theorem C18_slice_reads_copy : forall (f : rootsig -> val) i s p w r ix shp jx shp1 si,
+  f (root w i) = VWin r ix shp -> resolve ix shp p = Some (jx, shp1) ->
+  lookup_slc s shp1 = Some si -> si_kind si = KCopy ->
+  get_fld f i (s :: p) w =
+    (set_heap w (heap w ++ [copy_buf (heap w) r (sub_ix jx (si_idx si))]),
+     Ok (VWin (length (heap w)) (whole (length (si_idx si))) (si_shape si))) /\
+  rd (heap w ++ [copy_buf (heap w) r (sub_ix jx (si_idx si))]) (length (heap w))
+     (whole (length (sub_ix jx (si_idx si)))) = rd (heap w) r (sub_ix jx (si_idx si)).
+Proof.
+  intros f i s p w r ix shp jx shp1 si H1 H2 H3 H4.
+  exact (conj (get_fld_copy f i s p w r ix shp jx shp1 si H1 H2 H3 H4) (copy_reads (heap w) r (sub_ix jx (si_idx si)))).
+Qed.
+Print Assumptions C18_slice_reads_copy.
+
+Theorem C18_slice_reads_scalar : forall (f : rootsig -> val) i s p w r ix shp jx shp1 si,
+  f (root w i) = VWin r ix shp -> resolve ix shp p = Some (jx, shp1) ->
+  lookup_slc s shp1 = Some si -> si_kind si = KScalar ->
+  get_fld f i (s :: p) w =
+    (w, Ok (VScal (hd c0 (rd (heap w) r (sub_ix jx (si_idx si)))) (bcplx (getbuf (heap w) r)) true)).
+Proof. exact get_fld_scalar. Qed.
+Print Assumptions C18_slice_reads_scalar.
+
+(* None base: the slice reads None whatever the path *)
+Theorem C18_slice_reads_none : forall (f : rootsig -> val) i p w,
+  f (root w i) = VNone -> get_fld f i p w = (w, Ok VNone).
+Proof. exact get_fld_none. Qed.
+Print Assumptions C18_slice_reads_none.
+
+(* ------------------------------------------------------------------ 2. a slice WRITES those entries and nothing else *)
+Theorem C18_slice_writes_state : forall i s p x w r ix shp jx shp1 si,
+  r_st (root w i) = VWin r ix shp -> resolve ix shp p = Some (jx, shp1) ->
+  lookup_slc s shp1 = Some si -> (si_kind si = KView \/ si_kind si = KCopy) ->
+  win_ok (heap w) r (sub_ix jx (si_idx si)) ->
+  fits (heap w) x (si_shape si) (length (si_idx si)) (bcplx (getbuf (heap w) r)) ->
+  exists w', set_st i (s :: p) x w = (w', Ok tt) /\ roots w' = roots w /\ vars w' = vars w /\
+    wrote (heap w) (heap w') r (sub_ix jx (si_idx si)) (vdata (heap w) x (length (si_idx si))).
+Proof. exact set_st_slice_wrote. Qed.
+Print Assumptions C18_slice_writes_state.
+
+(* frame for EVERY path (also through copying inner slices, where the write is lost) and every outcome (also errors):
+   no signal record, no variable and no buffer other than the one behind the root's state changes *)
+Theorem C18_slice_write_footprint : forall i s p x w w' res,
+  (forall r, state_is w i r -> r < length (heap w)) ->
+  set_st i (s :: p) x w = (w', res) ->
+  roots w' = roots w /\ vars w' = vars w /\ heap_frame (state_is w i) (heap w) (heap w').
+Proof. exact set_st_slice_footprint. Qed.
+Print Assumptions C18_slice_write_footprint.
+
+(* ------------------------------------------------------------------ 3. add_sensitivity through a slice *)
+(* base sensitivity exists: exactly the selected entries are increased by ds (read-add-write-back; final index basic
+   or integer array) *)
+Theorem C18_add_through_slice_accumulates : forall i s p ds w rs ixs shp jx shp1 si,
+  r_se (root w i) = VWin rs ixs shp -> resolve ixs shp p = Some (jx, shp1) ->
+  lookup_slc s shp1 = Some si -> (si_kind si = KView \/ si_kind si = KCopy) -> si_shape si <> [] ->
+  win_ok (heap w) rs (sub_ix jx (si_idx si)) ->
+  fits (heap w) ds (si_shape si) (length (si_idx si)) (bcplx (getbuf (heap w) rs)) ->
+  (forall r', vref ds = Some r' -> r' < length (heap w)) ->
+  exists w', add_se i (s :: p) ds w = (w', Ok tt) /\ roots w' = roots w /\ vars w' = vars w /\
+    wrote (heap w) (heap w') rs (sub_ix jx (si_idx si))
+          (map2 cadd (rd (heap w) rs (sub_ix jx (si_idx si))) (vdata (heap w) ds (length (si_idx si)))).
+Proof. exact add_se_slice_exists. Qed.
+Print Assumptions C18_add_through_slice_accumulates.
+
+(* no base sensitivity: a FRESH array of the base state's shape and dtype is created, zero everywhere except the
+   selected (logical) positions, which hold ds; nothing else changes *)
+Theorem C18_add_through_slice_creates_zero : forall i s p ds w r0 ix0 shp jx0 kx shp1 si,
+  i < length (roots w) -> r_se (root w i) = VNone -> r_st (root w i) = VWin r0 ix0 shp -> shp <> [] ->
+  r0 < length (heap w) ->
+  resolve ix0 shp p = Some (jx0, shp1) -> resolve (whole (length ix0)) shp p = Some (kx, shp1) ->
+  lookup_slc s shp1 = Some si -> (si_kind si = KView \/ si_kind si = KCopy) -> si_shape si <> [] ->
+  NoDup (sub_ix kx (si_idx si)) -> Forall (fun k => k < length ix0) (sub_ix kx (si_idx si)) ->
+  fits (heap w) ds (si_shape si) (length (si_idx si)) (bcplx (getbuf (heap w) r0)) ->
+  (forall r', vref ds = Some r' -> r' < length (heap w)) ->
+  exists w' rs, add_se i (s :: p) ds w = (w', Ok tt) /\
+    vars w' = vars w /\ (forall j, j <> i -> root w' j = root w j) /\ r_st (root w' i) = r_st (root w i) /\
+    r_se (root w' i) = VWin rs (whole (length ix0)) shp /\ length (heap w) <= rs /\
+    bcplx (getbuf (heap w') rs) = bcplx (getbuf (heap w) r0) /\
+    length (bdata (getbuf (heap w') rs)) = length ix0 /\
+    rd (heap w') rs (sub_ix kx (si_idx si)) = vdata (heap w) ds (length (si_idx si)) /\
+    (forall k, ~ In k (sub_ix kx (si_idx si)) -> nth k (bdata (getbuf (heap w') rs)) c0 = c0) /\
+    same_old (heap w) (heap w').
+Proof. exact add_se_slice_none. Qed.
+Print Assumptions C18_add_through_slice_creates_zero.
+
+(* ------------------------------------------------------------------ 4. add_sensitivity on a Signal *)
+(* first contribution: deep copy into a fresh buffer *)
+Theorem C18_add_first_is_deepcopy : forall i w r' ix' shp', r_se (root w i) = VNone ->
+  add_se i [] (VWin r' ix' shp') w =
+    (set_roots (set_heap w (heap w ++ [copy_buf (heap w) r' ix']))
+       (upd (roots w) i {| r_st := r_st (root w i);
+                           r_se := VWin (length (heap w)) (whole (length ix')) shp';
+                           r_keep := r_keep (root w i) |}), Ok tt).
+Proof. exact add_se_root_first_array. Qed.
+Print Assumptions C18_add_first_is_deepcopy.
+
+(* later contributions: in place, same object *)
+Theorem C18_add_accumulates_in_place : forall i w rs ixs shp ds,
+  i < length (roots w) -> r_se (root w i) = VWin rs ixs shp ->
+  fits (heap w) ds shp (length ixs) (bcplx (getbuf (heap w) rs)) ->
+  add_se i [] ds w =
+    (set_heap w (hwrite (heap w) rs ixs (map2 cadd (rd (heap w) rs ixs) (vdata (heap w) ds (length ixs)))), Ok tt).
+Proof. exact add_se_root_accumulate. Qed.
+Print Assumptions C18_add_accumulates_in_place.
+
+Theorem C18_add_none_is_noop : forall i p w, add_se i p VNone w = (w, Ok tt).
+Proof. exact add_se_none. Qed.
+Print Assumptions C18_add_none_is_noop.
+
+(* footprint of add_sensitivity / reset for EVERY path, argument and outcome: only root i's sensitivity field and
+   the buffer it referred to (or fresh buffers) change; afterwards the field refers to the same or a fresh buffer *)
+Theorem C18_add_footprint : forall i p ds w w' r,
+  (forall r, sens_is w i r -> r < length (heap w)) -> add_se i p ds w = (w', r) -> sens_footprint i w w'.
+Proof. exact add_se_footprint. Qed.
+Print Assumptions C18_add_footprint.
+
+Theorem C18_reset_footprint : forall i p k w w' r,
+  (forall r, sens_is w i r -> r < length (heap w)) -> reset i p k w = (w', r) -> sens_footprint i w w'.
+Proof. exact reset_footprint. Qed.
+Print Assumptions C18_reset_footprint.
+
+(* ------------------------------------------------------------------ 5. the no-alias invariant, all operation sequences
+   Inv w: every reference is valid and the buffer held as sensitivity of a Signal is referenced by no variable of
+   the test, no state of any signal and no other signal's sensitivity.
+   protocol w o: o is any operation except `sig.sensitivity = <array object>` on a Signal, `x = sig.sensitivity`,
+   and constructing a Signal around an existing sensitivity array (these hand the object out / in).
+   targets o i: o is add_sensitivity / reset / sensitivity assignment on Signal i or one of its slices. *)
+Theorem C18_no_alias_initial : forall n, Inv (world0 n).
+Proof. exact Inv_world0. Qed.
+Print Assumptions C18_no_alias_initial.
+
+Theorem C18_no_alias_step : forall w o, Inv w -> protocol w o ->
+  Inv (exec o w) /\
+  (forall i, ~ targets o i -> i < length (roots w) -> sens_abs (exec o w) i = sens_abs w i) /\
+  length (roots w) <= length (roots (exec o w)).
+Proof. exact isolation_step. Qed.
+Print Assumptions C18_no_alias_step.
+
+Theorem C18_no_alias_run : forall os w, Inv w -> protocol_run w os -> Inv (run os w).
+Proof. exact no_alias_run. Qed.
+Print Assumptions C18_no_alias_run.
+
+(* what a signal holds is changed by NO sequence of operations that does not address that signal: external mutation
+   of any array (in particular of the ds that was added), state assignments anywhere, additions / resets on other
+   signals (also of the same ds object), slicing, ... *)
+Theorem C18_isolation_run : forall os w i, Inv w -> protocol_run w os -> i < length (roots w) ->
+  Forall (fun o => ~ targets o i) os -> sens_abs (run os w) i = sens_abs w i.
+Proof. exact isolation_run. Qed.
+Print Assumptions C18_isolation_run.
+
+Theorem C18_changing_ds_afterwards : forall w i p v d, Inv w -> i < length (roots w) ->
+  sens_abs (exec (OMut v d) (exec (OAddSens i p v) w)) i = sens_abs (exec (OAddSens i p v) w) i.
+Proof. exact mutate_after_add. Qed.
+Print Assumptions C18_changing_ds_afterwards.
+
+Theorem C18_same_object_to_two_signals : forall w i j p q v, Inv w -> i < length (roots w) -> i <> j ->
+  let w1 := exec (OAddSens i p v) w in let w2 := exec (OAddSens j q v) w1 in
+  Inv w2 /\ sens_abs w2 i = sens_abs w1 i /\
+  forall os, protocol_run w2 os -> Forall (fun o => ~ targets o i) os -> sens_abs (run os w2) i = sens_abs w1 i.
+Proof. exact same_object_two_signals. Qed.
+Print Assumptions C18_same_object_to_two_signals.
+
+(* ------------------------------------------------------------------ 6. reset *)
+Theorem C18_reset_none : forall i k w, r_se (root w i) = VNone -> reset i [] k w = (w, Ok tt).
+Proof. exact reset_root_none. Qed.
+Print Assumptions C18_reset_none.
+
+Theorem C18_reset_clears : forall i k w, r_se (root w i) <> VNone -> keep_flag w i k = false ->
+  reset i [] k w =
+    (set_roots w (upd (roots w) i {| r_st := r_st (root w i); r_se := VNone; r_keep := r_keep (root w i) |}), Ok tt).
+Proof. exact reset_root_clear. Qed.
+Print Assumptions C18_reset_clears.
+
+(* allocation kept: the sensitivity field is untouched (same object), its entries are overwritten with zeros *)
+Theorem C18_reset_keeps_allocation : forall i k w rs ixs shp,
+  r_se (root w i) = VWin rs ixs shp -> keep_flag w i k = true ->
+  reset i [] k w = (set_heap w (hwrite (heap w) rs ixs (repeat c0 (length ixs))), Ok tt).
+Proof. exact reset_root_keep_array. Qed.
+Print Assumptions C18_reset_keeps_allocation.
+
+Theorem C18_reset_keeps_scalar : forall i k w c cx np, r_se (root w i) = VScal c cx np -> keep_flag w i k = true ->
+  reset i [] k w =
+    (set_roots w (upd (roots w) i {| r_st := r_st (root w i); r_se := VScal c0 cx np; r_keep := r_keep (root w i) |}), Ok tt).
+Proof. exact reset_root_keep_scalar. Qed.
+Print Assumptions C18_reset_keeps_scalar.
+
+(* resetting a slice zeroes exactly its own entries (whatever keep_alloc) ... *)
+Theorem C18_reset_slice_zeroes_own_entries : forall i s p k w rs ixs shp jx shp1 si,
+  r_se (root w i) = VWin rs ixs shp -> resolve ixs shp p = Some (jx, shp1) ->
+  lookup_slc s shp1 = Some si -> (si_kind si = KView \/ si_kind si = KCopy) -> si_shape si <> [] ->
+  win_ok (heap w) rs (sub_ix jx (si_idx si)) ->
+  exists w', reset i (s :: p) k w = (w', Ok tt) /\ roots w' = roots w /\ vars w' = vars w /\
+    wrote (heap w) (heap w') rs (sub_ix jx (si_idx si)) (repeat c0 (length (si_idx si))).
+Proof. exact reset_slice_exists. Qed.
+Print Assumptions C18_reset_slice_zeroes_own_entries.
+
+(* ... and does nothing when the base has no sensitivity *)
+Theorem C18_reset_slice_without_sensitivity : forall i s p k w,
+  r_se (root w i) = VNone -> reset i (s :: p) k w = (w, Ok tt).
+Proof. exact reset_slice_none. Qed.
+Print Assumptions C18_reset_slice_without_sensitivity.
+
+(* ------------------------------------------------------------------ non-vacuity: a 3x4 base, the row slice [1:3], the
+   column slice [:, 1:3] nested inside it, and the overlapping integer-array slice [[2, 0]] *)
+Local Open Scope Z_scope.
+Definition SI (ix : list nat) (k : kind) (shp : list Z) : sinfo := {| si_idx := ix; si_kind := k; si_shape := shp |}.
+Definition s_rows : slc := [([3; 4], SI [4; 5; 6; 7; 8; 9; 10; 11]%nat KView [2; 4])].
+Definition s_cols : slc := [([2; 4], SI [1; 2; 5; 6]%nat KView [2; 2]); ([3; 4], SI [1; 2; 5; 6; 9; 10]%nat KView [3; 2])].
+Definition s_fancy : slc := [([3; 4], SI [8; 9; 10; 11; 0; 1; 2; 3]%nat KCopy [2; 4])].
+Definition zc (z : Z) : C := (z, 0).
+Definition ex_setup : list op :=
+  [ONewArr 0 (map zc [10; 11; 12; 13; 14; 15; 16; 17; 18; 19; 20; 21]) false [3; 4];
+   ONewSig 0 1;
+   ONewArr 2 (map zc [1; 2; 3; 4]) false [2; 2];
+   ONewArr 3 (map zc [1; 1; 1; 1; 5; 5; 5; 5]) false [2; 4]].
+Definition w_ex : world := run ex_setup (world0 4).
+Definition ex_ops : list op :=
+  [OAddSens 0 [s_cols; s_rows] 2;       (* base[1:3][:, 1:3].add_sensitivity(v2): creates the zero base sensitivity *)
+   OMut 2 (map zc [9; 9; 9; 9]);        (* the test changes v2 afterwards *)
+   OAddSens 0 [s_fancy] 3;              (* base[[2, 0]].add_sensitivity(v3): overlaps the first slice *)
+   ONewSig 1 1; OAddSens 1 [] 3;        (* the same object v3 goes to a second signal *)
+   OReset 0 [s_rows] None].             (* reset of the row slice *)
+
+Example C18_ex_values :
+  sens_abs (run ex_ops w_ex) 0 = AArr (map zc [5; 5; 5; 5; 0; 0; 0; 0; 0; 0; 0; 0]) [3; 4] false /\
+  sens_abs (run ex_ops w_ex) 1 = AArr (map zc [1; 1; 1; 1; 5; 5; 5; 5]) [2; 4] false /\
+  sens_abs (run (firstn 3 ex_ops) w_ex) 0 = AArr (map zc [5; 5; 5; 5; 0; 1; 2; 0; 1; 4; 5; 1]) [3; 4] false.
+Proof. vm_compute. repeat split. Qed.
+
+Example C18_ex_protocol : Inv w_ex /\ protocol_run w_ex ex_ops.
+Proof.
+  split.
+  - apply (no_alias_run ex_setup (world0 4) (Inv_world0 4)). vm_compute. repeat split.
+  - vm_compute. repeat split.
+Qed.
+
+(* the hypotheses of the nested-slice theorems are met by this instance *)
+Example C18_ex_creates_zero :
+  exists w' rs, add_se 0 [s_cols; s_rows] (nth 2 (vars w_ex) VNone) w_ex = (w', Ok tt) /\
+    r_se (root w' 0) = VWin rs (whole 12) [3; 4] /\
+    rd (heap w') rs [5; 6; 9; 10]%nat = map zc [1; 2; 3; 4].
+Proof.
+  set (si := SI [1; 2; 5; 6]%nat KView [2; 2]).
+  set (rows := [4; 5; 6; 7; 8; 9; 10; 11]%nat).
+  assert (H1 : (0 < length (roots w_ex))%nat) by (vm_compute; auto with arith).
+  assert (H2 : r_se (root w_ex 0) = VNone) by reflexivity.
+  assert (H3 : r_st (root w_ex 0) = VWin 0 (whole 12) [3; 4]) by reflexivity.
+  assert (H4 : [3; 4] <> []) by discriminate.
+  assert (H5 : (0 < length (heap w_ex))%nat) by (vm_compute; auto with arith).
+  assert (H6 : resolve (whole 12) [3; 4] [s_rows] = Some (rows, [2; 4])) by reflexivity.
+  assert (H7 : resolve (whole (length (whole 12))) [3; 4] [s_rows] = Some (rows, [2; 4])) by reflexivity.
+  assert (H8 : lookup_slc s_cols [2; 4] = Some si) by reflexivity.
+  assert (H9 : si_kind si = KView \/ si_kind si = KCopy) by (left; reflexivity).
+  assert (H10 : si_shape si <> []) by discriminate.
+  assert (H11 : NoDup (sub_ix rows (si_idx si))) by (apply nodupb_sound; reflexivity).
+  assert (H12 : Forall (fun k => (k < length (whole 12))%nat) (sub_ix rows (si_idx si))).
+  { apply Forall_forall. intros k Hk. vm_compute in Hk. vm_compute. intuition (subst; auto 20 with arith). }
+  assert (H13 : fits (heap w_ex) (nth 2 (vars w_ex) VNone) (si_shape si) (length (si_idx si)) (bcplx (getbuf (heap w_ex) 0))).
+  { split; [discriminate|]. vm_compute. repeat split; discriminate. }
+  assert (H14 : forall r', vref (nth 2 (vars w_ex) VNone) = Some r' -> (r' < length (heap w_ex))%nat).
+  { intros r' Hr'. vm_compute in Hr'. inversion Hr'; subst. vm_compute; auto with arith. }
+  destruct (add_se_slice_none 0%nat s_cols [s_rows] _ w_ex 0%nat (whole 12) [3; 4] rows rows [2; 4] si
+              H1 H2 H3 H4 H5 H6 H7 H8 H9 H10 H11 H12 H13 H14)
+    as (w' & rs & E & _ & _ & _ & Hse & _ & _ & _ & Hrd & _).
+  exists w', rs. split; [exact E|]. split; [exact Hse|exact Hrd].
+Qed.
+
+Example C18_ex_accumulates_and_reset :
+  let w1 := run (firstn 2 ex_ops) w_ex in
+  (exists w', add_se 0 [s_fancy] (nth 3 (vars w1) VNone) w1 = (w', Ok tt) /\
+     rd (heap w') 4 [8; 9; 10; 11; 0; 1; 2; 3]%nat = map zc [1; 4; 5; 1; 5; 5; 5; 5]) /\
+  (exists w', reset 0 [s_rows] None w1 = (w', Ok tt) /\
+     rd (heap w') 4 [4; 5; 6; 7; 8; 9; 10; 11]%nat = repeat c0 8 /\
+     forall k, ~ In k [4; 5; 6; 7; 8; 9; 10; 11]%nat ->
+       nth k (bdata (getbuf (heap w') 4)) c0 = nth k (bdata (getbuf (heap w1) 4)) c0).
+Proof.
+  intros w1.
+  assert (Hse : r_se (root w1 0) = VWin 4 (whole 12) [3; 4]) by reflexivity.
+  assert (Hr : resolve (whole 12) [3; 4] [] = Some (whole 12, [3; 4])) by reflexivity.
+  split.
+  - set (si := SI [8; 9; 10; 11; 0; 1; 2; 3]%nat KCopy [2; 4]).
+    assert (H3 : lookup_slc s_fancy [3; 4] = Some si) by reflexivity.
+    assert (H4 : si_kind si = KView \/ si_kind si = KCopy) by (right; reflexivity).
+    assert (H5 : si_shape si <> []) by discriminate.
+    assert (H6 : win_ok (heap w1) 4 (sub_ix (whole 12) (si_idx si))) by (apply win_okb_sound; vm_compute; reflexivity).
+    assert (H7 : fits (heap w1) (nth 3 (vars w1) VNone) (si_shape si) (length (si_idx si)) (bcplx (getbuf (heap w1) 4))).
+    { split; [discriminate|]. vm_compute. repeat split; discriminate. }
+    assert (H8 : forall r', vref (nth 3 (vars w1) VNone) = Some r' -> (r' < length (heap w1))%nat).
+    { intros r' Hr'. vm_compute in Hr'. inversion Hr'; subst. vm_compute; auto with arith. }
+    destruct (add_se_slice_exists 0%nat s_fancy [] _ w1 4%nat (whole 12) [3; 4] (whole 12) [3; 4] si Hse Hr H3 H4 H5 H6 H7 H8)
+      as (w' & E & _ & _ & W).
+    exists w'. split; [exact E|]. destruct W as (_ & W2 & _). exact W2.
+  - set (si := SI [4; 5; 6; 7; 8; 9; 10; 11]%nat KView [2; 4]).
+    assert (H3 : lookup_slc s_rows [3; 4] = Some si) by reflexivity.
+    assert (H4 : si_kind si = KView \/ si_kind si = KCopy) by (left; reflexivity).
+    assert (H5 : si_shape si <> []) by discriminate.
+    assert (H6 : win_ok (heap w1) 4 (sub_ix (whole 12) (si_idx si))) by (apply win_okb_sound; vm_compute; reflexivity).
+    destruct (reset_slice_exists 0%nat s_rows [] None w1 4%nat (whole 12) [3; 4] (whole 12) [3; 4] si Hse Hr H3 H4 H5 H6)
+      as (w' & E & _ & _ & W).
+    exists w'. split; [exact E|]. destruct W as (_ & W2 & W3 & _). split; [exact W2|exact W3].
+Qed.
